@@ -24,7 +24,9 @@ auto gemv_n(Context ctxt, typename MIt::element a, MIt m_first, Size count, XIt 
 	assert( x_first.base() != y_first.base() );
 	assert( y_first.stride() != 0 );  // BLAS generally doesn't support stride zero
 
-	if constexpr(! is_conjugated<MIt>::value) {
+	if((*m_first).size() == 0) {  // xGEMV returns at once, without scaling y, for a matrix without columns: y <- b*y is left to xSCAL
+		ctxt->scal(count, &b, y_first.base(), y_first.stride());
+	} else if constexpr(! is_conjugated<MIt>::value) {
 		if     (m_first .stride()==1)   {ctxt->gemv('N', count, (*m_first).size(), &a, m_first.base()            , legal_ld((*m_first).stride(), count), x_first.base(), x_first.stride(), &b, y_first.base(), y_first.stride());}
 		else if((*m_first).stride()==1) {ctxt->gemv('T', (*m_first).size(), count, &a, m_first.base()            , legal_ld(m_first.stride(), (*m_first).size()), x_first.base(), x_first.stride(), &b, y_first.base(), y_first.stride());}
 		else                           {assert(0); /*throw gemv_stride_error{"not BLAS-implemented"};*/}  // LCOV_EXCL_LINE
